@@ -1,6 +1,7 @@
 package zzverif
 
 import (
+	"encoding/base64"
 	"encoding/json"
 	"fmt"
 	"net"
@@ -91,6 +92,7 @@ type stubNode struct {
 	tomb   map[string]bool // lookupd: "nsqdIdx/topic" tombstoned
 	mode   int    // failure mode
 	created map[string]bool // lookupd: topics created through its admin API
+	unconfigured bool       // lookupd: running, but not in nsqadmin's list at the moment
 	ln     net.Listener
 	srv    *http.Server
 }
@@ -146,9 +148,9 @@ func genAOps(rc *RunCtx, c ACfg) []Op {
 	var ops []Op
 	add := func(o Op) { o.Uid = len(ops); ops = append(ops, o) }
 	for len(ops) < n {
-		switch r.Weighted([]int{30, 30, 14, 12, 4, 4}) {
+		switch r.Weighted([]int{30, 30, 14, 12, 4, 4, 4}) {
 		case 0: // mutating request with some identity
-			add(Op{Kind: "mutate", A: int64(r.Intn(12)), B: int64(r.Intn(10)), C: int64(r.Intn(6)), D: int64(r.Intn(6))})
+			add(Op{Kind: "mutate", A: int64(r.Intn(13)), B: int64(r.Intn(10)), C: int64(r.Intn(6)), D: int64(r.Intn(6))})
 		case 1: // read view compared with the reference aggregation
 			add(Op{Kind: "view", A: int64(r.Intn(6)), B: int64(r.Intn(8)), C: int64(r.Intn(6)), D: int64(r.Intn(10))})
 		case 2: // upstream failure mode change
@@ -159,6 +161,8 @@ func genAOps(rc *RunCtx, c ACfg) []Op {
 			add(Op{Kind: "nullview", A: int64(r.Intn(8)), B: int64(r.Intn(6)), C: int64(r.Intn(6))})
 		case 5: // a reconfiguration of the lookupd list that is refused (or changes nothing)
 			add(Op{Kind: "badreconf", A: int64(r.Intn(4))})
+		case 6: // a new lookupd list
+			add(Op{Kind: "reconf", A: int64(r.Intn(64))})
 		}
 	}
 	return ops
@@ -249,7 +253,7 @@ func (w *aWorld) genTombstones() {
 	for _, n := range w.nsqds() {
 		for _, t := range n.topics {
 			if r.Chance(1, 8) {
-				for _, l := range w.lookupds() {
+				for _, l := range w.allLookupds() {
 					l.tomb[fmt.Sprintf("%d/%s", n.idx, t.TopicName)] = true
 				}
 			}
@@ -266,7 +270,18 @@ func (w *aWorld) nsqds() []*stubNode {
 	}
 	return out
 }
+// lookupds: the nsqlookupds nsqadmin is configured with at the moment (the list can be changed at run time)
 func (w *aWorld) lookupds() []*stubNode {
+	var out []*stubNode
+	for _, n := range w.nodes {
+		if n.kind == "lookupd" && !n.unconfigured {
+			out = append(out, n)
+		}
+	}
+	return out
+}
+
+func (w *aWorld) allLookupds() []*stubNode {
 	var out []*stubNode
 	for _, n := range w.nodes {
 		if n.kind == "lookupd" {
@@ -534,6 +549,12 @@ func adminWorld(rc *RunCtx) {
 			return
 		}
 	}
+	// sometimes nsqadmin starts with only the first of several lookupds and is told about the others later
+	if all := w.allLookupds(); len(all) > 1 && NewPRNG(c.Seed2^0x1157).Chance(1, 3) {
+		for _, l := range all[1:] {
+			l.unconfigured = true
+		}
+	}
 	o := nsqadmin.NewOptions()
 	o.Logger = &simLogger{rc: rc, name: "nsqadmin"}
 	o.HTTPAddress = "127.0.0.1:4171"
@@ -615,6 +636,8 @@ func adminWorld(rc *RunCtx) {
 			w.opNullView(op)
 		case "badreconf":
 			w.opBadReconf(op)
+		case "reconf":
+			w.opReconf(op)
 		}
 		synctest.Wait()
 		if rc.Failed() {
@@ -704,7 +727,10 @@ func (w *aWorld) identity(sel int64) (hdr map[string]string, isAdmin bool) {
 	}
 	admins := w.cfg.AdminUsers
 	first := "alice"
-	switch sel % 12 {
+	switch sel % 13 {
+	case 12:
+		// an admin's name in HTTP basic credentials nobody verified: not an identity nsqadmin was told to trust
+		return map[string]string{"Authorization": "Basic " + base64.StdEncoding.EncodeToString([]byte(first+":secret"))}, false
 	case 0:
 		return nil, false
 	case 1:
@@ -1494,12 +1520,45 @@ func (w *aWorld) opBadReconf(op Op) {
 			l = append(l, n.addr)
 		}
 		body, _ = json.Marshal(l)
-		want = 200
+		want = 200 // (the list that is configured already)
 	}
 	resp := httpDo(w.rc, "PUT", w.http, "/config/nsqlookupd_http_addresses", body, nil, src, 30*time.Second)
 	w.rc.Logf("reconf %s -> %d %q err=%v", body, resp.Status, trunc(resp.Body, 80), resp.Err)
 	w.rc.Probe("refused_reconfigurations")
 	if resp.Err != nil || resp.Status != want {
 		w.violate("C17", "config-status", "PUT /config/nsqlookupd_http_addresses %s from %v answered %d (err %v), expected %d", body, src, resp.Status, resp.Err, want)
+	}
+}
+
+// opReconf: PUT /config/nsqlookupd_http_addresses with another non-empty subset of the running lookupds
+// (from an allowed address). From the answer on, views and actions concern exactly the new list.
+func (w *aWorld) opReconf(op Op) {
+	all := w.allLookupds()
+	if len(all) < 2 {
+		return
+	}
+	mask := int(op.A)%((1<<len(all))-1) + 1
+	var l []string
+	for i, n := range all {
+		if mask&(1<<i) != 0 {
+			l = append(l, n.addr)
+		}
+	}
+	var src net.IP
+	if w.cfg.CIDR != "" {
+		_, ipn, _ := net.ParseCIDR(w.cfg.CIDR)
+		src = append(net.IP(nil), ipn.IP...)
+		src[len(src)-1] |= 1
+	}
+	body, _ := json.Marshal(l)
+	resp := httpDo(w.rc, "PUT", w.http, "/config/nsqlookupd_http_addresses", body, nil, src, 30*time.Second)
+	w.rc.Logf("reconf %s -> %d %q err=%v", body, resp.Status, trunc(resp.Body, 80), resp.Err)
+	w.rc.Probe("reconfigurations")
+	if resp.Err != nil || resp.Status != 200 {
+		w.violate("C17", "config-status", "PUT /config/nsqlookupd_http_addresses %s from %v answered %d (err %v), expected 200", body, src, resp.Status, resp.Err)
+		return
+	}
+	for i, n := range all {
+		n.unconfigured = mask&(1<<i) == 0
 	}
 }
